@@ -248,7 +248,17 @@ struct MapStream : Family {
 				m.srcs = keep;
 				edited = true;
 			} else if (v == "write") {
-				std::vector<uint8_t> w = writeMap(plan, ctx, map, wb, "e" + std::to_string(oi), "C06.edit-exact");
+				// the object written is the map itself, a copy of it, a copy-assigned one or one moved out of a copy: value semantics
+				Map viaCopy;
+				const Map* subject = &map;
+				uint64_t how = mix64(plan.seed, oi) % 4;
+				if (how) {
+					std::string cw;
+					Out co = callLib(plan, [&] { if (how == 1) { Map c(map); viaCopy = std::move(c); } else if (how == 2) viaCopy = map; else { Map c(map); Map d(std::move(c)); viaCopy = d; } }, &cw);
+					if (co != OkOut) ctx.fail("C06.edit-exact", "copying a map failed: " + cw);
+					subject = &viaCopy;
+				}
+				std::vector<uint8_t> w = writeMap(plan, ctx, *subject, wb, "e" + std::to_string(oi), "C06.edit-exact");
 				std::vector<uint8_t> exp = expectedRewrite(m, w);
 				if (w != exp) ctx.fail("C06.edit-exact", "after the edit history the written bytes differ from the model's (each edit changes exactly what it names): " + firstDiff(w, exp));
 				ctx.event("write " + hex64(fnv1a(w.data(), w.size())));
@@ -346,7 +356,7 @@ struct MapDamage : Family {
 		for (size_t vi = 0; vi < variants.size(); ++vi) {
 			const Line& dmg = variants[vi];
 			// backend rotates so that every backend meets every damage class over the sweep; a pinned variant carries its backend
-			const std::string backendName = dmg.has("backend") ? dmg.get("backend") : (vi % 7 == 3) ? "file" : (vi % 7 == 5) ? "sim" : "mem";
+			const std::string backendName = dmg.has("backend") ? dmg.get("backend") : (vi % 7 == 3) ? "file" : (vi % 7 == 5) ? "sim" : (vi % 7 == 1) ? "path" : (vi % 7 == 6) ? "rvalue" : "mem";
 			{ Line pinned = dmg; pinned.set("backend", backendName); ctx.setVariant(pinned.str()); }
 			std::vector<uint8_t> bytes = applyDamage(valid, fields, dmg);
 			bool changed = bytes != valid;
@@ -356,6 +366,8 @@ struct MapDamage : Family {
 			Map map;
 			std::string what;
 			Out o = callLib(plan, [&] {
+				if (backendName == "path") { disk::put("d.in", bytes); map = saved ? Map::ReadSavedGame(std::string("d.in")) : Map::ReadMap(std::string("d.in")); return; } // filename overloads
+				if (backendName == "rvalue") { map = saved ? Map::ReadSavedGame(Stream::MemoryReader(bytes.data(), bytes.size())) : Map::ReadMap(Stream::MemoryReader(bytes.data(), bytes.size())); return; }
 				ReaderBox b = openBackend(backend, bytes, "d", 1);
 				map = saved ? Map::ReadSavedGame(*b.rd) : Map::ReadMap(*b.rd);
 			}, &what);
